@@ -29,6 +29,8 @@ def run(ctx):
     hpackrules.resumability(r, F)
     r = ctx.rule('C11.R6', 'PAIR', 'decoder dynamic-table accounting is paired')
     hpackrules.table_accounting(r, F)
+    r = ctx.rule('C11.R7', 'TABLE', 'entry size = 32 + name + value with the right pseudo-name lengths (RFC 7541 §4.1)')
+    hpackrules.entry_size(r, F)
 
 
 _run_rules = run
